@@ -37,7 +37,7 @@ def plan(tier, seed):
         specs.append(dict(name="phases-%d" % i, mode="interp", what="phases", input=i, seed=seed))
     specs.append(dict(name="frontends", mode="interp", what="frontends", seed=seed))
     specs.append(dict(name="initfaults", mode="interp", what="initfaults", seed=seed, n=6 if q else 30))
-    specs.append(dict(name="natural", mode="interp", what="natural", seed=seed, n=4 if q else 16))
+    specs.append(dict(name="natural", mode="interp", what="natural", seed=seed, n=6 if q else 16))
     for p in range(2 if q else 6):
         specs.append(dict(name="shortage-%d" % p, mode="interp", what="shortage", part=p, parts=2 if q else 6, Kmax=4 if q else 5))
     for p in range(2 if q else 6):
@@ -432,7 +432,7 @@ def run_natural(spec, res):
         case = wc.gen_single(rng, "small")
         case["data"]["flavor"] = "plain"
         case["data"]["T"] = 50
-        case["data"]["N"] = int(rng.integers(2, 4))
+        case["data"]["N"] = 3                      # (LAPACK only refuses a NaN matrix of dimension >= 3; smaller ones come back as NaN)
         case["W"] = int(rng.integers(1, 3))
         case["K"] = 3
         case["biased"] = False
